@@ -224,6 +224,58 @@ def standin_ionq(tier, seed):
 standin_ionq.prop = "C17"
 
 
+def standin_ionq_measurement_table(tier, seed):
+    """the key -> targets table packed into the 40-character metadata values measurement0..8 decodes (plain concatenation, then
+    chr(30) / chr(31) splits, as the results side does) to exactly the circuit's keys and qubits; any key text, any table length"""
+    import cirq
+    import cirq_ionq
+
+    rng = random.Random(seed + 41)
+    ser = cirq_ionq.Serializer()
+    pool = ["k", "second", "charlie result", "a b c", "col\tA", "line\nbreak", " leading", "trailing ", "double  space", "x" * 30, "key_with_a_rather_long_name", "m0", "ß-ünï", "a,b", "1", "", "measure me please"]
+    cases, fails = 0, []
+    for _ in range(150 if tier == "quick" else 3000):
+        n = rng.choice([2, 3, 5, 8])
+        qs = cirq.LineQubit.range(n)
+        nk = rng.randrange(1, min(n, 6) + 1)
+        keys = rng.sample([k for k in pool if k != ""] + [""] * 0, nk)
+        free = list(qs)
+        rng.shuffle(free)
+        meas = []
+        for i, k in enumerate(keys):
+            take = free[i::nk][: rng.randrange(1, 3)] or [free[i]]
+            meas.append(cirq.measure(*take, key=k))
+        # no qubit measured twice
+        seen = set()
+        meas = [m for m in meas if not (set(m.qubits) & seen) and not seen.update(m.qubits)]
+        c = cirq.Circuit(cirq.X(qs[0]), meas)
+        try:
+            sp = ser.serialize_single_circuit(c)
+        except ValueError:
+            continue  # documented refusal (table too long / invalid key)
+        cases += 1
+        md = sp.metadata
+        parts = sorted((k for k in md if k.startswith("measurement")), key=lambda k: int(k[len("measurement"):]))
+        if any(len(md[k]) > 40 for k in parts):
+            fails.append(dict(args=dict(circuit=repr(c), metadata=repr(md)), failed="measurement-metadata", clause="a metadata value is longer than 40 characters"))
+            continue
+        table = "".join(md[k] for k in parts)
+        got = {}
+        for chunk in table.split(chr(30)):
+            if chunk:
+                k, t = chunk.split(chr(31))
+                got[k] = [int(x) for x in t.split(",")]
+        want = {cirq.measurement_key_name(m): [q.x for q in m.qubits] for m in meas}
+        if got != want:
+            fails.append(dict(args=dict(circuit=repr(c), metadata=repr(md)), failed="measurement-metadata", clause=f"the packed table decodes to {got}, the circuit measures {want}"))
+        if len(fails) >= 3:
+            break
+    return dict(function="cirq-ionq/cirq_ionq/serializer.py:Serializer._serialize_measurements", case="ionq-measurement-table",
+                bound="seeded circuits with 1-6 keys from a pool with spaces, tabs, newlines, unicode, commas and long names on 2-8 qubits (tables below and above 40 / 80 characters)",
+                cases=cases, distinct=cases, failures=len(fails), exhaustive=False, _fails=fails[:3])
+standin_ionq_measurement_table.prop = "C17"
+
+
 def standin_aqt(tier, seed):
     import cirq
     import cirq_aqt
@@ -269,7 +321,7 @@ def standin_aqt(tier, seed):
     return dict(function="cirq-aqt/cirq_aqt/aqt_sampler.py:AQTSampler._generate_json", case="aqt", bound="seeded circuits over Z/R/MS, 2-3 qubits, <= 5 ops",
                 cases=cases, distinct=cases, failures=len(fails), exhaustive=False, _fails=fails[:3])
 standin_aqt.prop = "C17"
-STANDINS = [standin_ionq, standin_aqt]
+STANDINS = [standin_ionq, standin_aqt, standin_ionq_measurement_table]
 
 NOT_COVERED = [
     "Serializer gate-by-gate payload semantics (_serialize_*_pow_gate thresholds), _near_mod_n, _serialize_measurements chunking, _little_endian_to_big: bounded only",
